@@ -31,6 +31,12 @@ Domain : mode (Colang 1.0: three-step dialog pipeline, single-call mode `rails.d
          and fails in the same way again (label `internal-error-turns=<n>:<mode>`, measured from the replies).
          In mode v2interp two thirds of the cases let the answer for value k spell out the placeholder of value j (`{$vj}`,
          `$vj`, `{vj}`; j later / earlier / k itself) exactly as the flow's string writes it (classes peer-placeholder-*).
+         Literal dimension (two thirds of the v2value / v2interp cases, an eighth of the Colang 1.0 dialog cases, one alternative
+         of every free placement): the value-generation call answers with a BUILT Python container literal = leaf (bytes /
+         complex / Ellipsis - values no flow variable can hold - or str / int / float / None / bool / inf / `()`) x 0-2 tuples
+         around the leaf x the slot it takes (list item, tuple item, set item, dict value, dict KEY, second dict key) x 0-3
+         outer wrappers (list, tuple, dict value): classes `py-lit:<family>@<slot>[-in-tuple]`, labels `literal:...`,
+         `literal-depth=<n>`.  Only the general oracle applies (generate returns a well-formed message, here and in later turns).
          A `context` message plants `secret_var = "S3CR3T"` in every conversation.
 Harness: vf.fakes (ScriptedLLM, fake embeddings, Session) + a subclass of vf.pipeline.Pipeline that builds the extra
          configurations (single-call, multi-step, passthrough, value generation), plants the context message and keeps the
@@ -100,9 +106,17 @@ RULE = (
     "the fixed internal-error reply is measured from the replies (label internal-error-turns=<n>:<mode>, counter internal-error-turns>=2|<mode>); "
     "two thirds of the v2interp cases make the answer for value k spell out the placeholder of value j of the same string (`{$vj}` / `$vj` / `{vj}`, "
     "j later, earlier or k itself: classes peer-placeholder-<style>:<later|earlier|own>); "
+    "literal dimension: two thirds of the v2value / v2interp cases (one or two value-generation calls of the conversation), an eighth of the v1 dialog cases "
+    "(call 1 of a turn of route `value`: `$val = ...`) and one alternative in eight/nine of every free placement answer with a Python container literal built from "
+    "data: leaf (two thirds a value no flow variable can hold: bytes, empty bytes, complex, complex sum, Ellipsis; else str with the call's marker, int, float, None, bool, "
+    "1e400, the empty tuple) x 0-2 tuples around the leaf x slot in its container (list item, tuple item, set item, dict value, dict key, second dict key; key slots "
+    "doubled) x 0-3 outer wrappers (list, list tail, tuple, dict value under a str / int key), i.e. nesting depth 1-6 (classes py-lit:<holdable|unholdable-bytes|-complex|-ellipsis>@<slot>[-in-tuple], "
+    "labels literal:<class>:<task>, literal-depth=<n>, counters lit|mode|task|leaf|slot); "
     "a context message plants secret_var. A third of the multi-turn v1 dialog cases use the stored-text shape: a payload in the LLM's "
     "message text of turn s and a variable-style bot intent (`bot $last_bot_message` / `$bot_message` / `$last_user_message`, also as "
-    "the bot-intent line of a single-call answer) at the next-step position of a later turn. An enumerated core crosses every mode x "
+    "the bot-intent line of a single-call answer) at the next-step position of a later turn. An enumerated core crosses the literal dimension with the value-generation calls (quick: 6 leaves x 6 slots x bare / inside a tuple, and the three unholdable "
+    "leaf families x 6 slots under two wrapper chains, at the value of v2value; the unholdable part split over the first and the second value of v2interp; thorough: every leaf x "
+    "slot x 0-2 tuples, plus wrapper chains for the unholdable leaves, at v2value, both values of v2interp and the `$val = ...` call of the four v1 dialog modes), every mode x "
     "call position x corpus class (raw, payload, control string; v1 dialog modes: hostile bot intent, in multi-step mode as first and as later step) in the first turn, "
     "the repeated shape over every v1 mode x call position x (a core of the raw classes, one control string, the hostile bot intents) for turns 0+1 and over every pattern of turns "
     "for the hostile bot intents at the intent-naming position, control strings at the first utterance of the second turn for "
@@ -119,6 +133,7 @@ ASSUMPTIONS = [
     "well-formed = dict with role 'assistant' and str content, or role 'exception' and a dict content with a str 'type'; the fixed internal-error replies and empty replies are well-formed (counted per mode)",
     "message-text positions: generate_bot_message, general / passthrough completions, the message line of a single-call completion, the string of a `bot say \"...\"` generated by v2 flow continuation, a v2 generated value that the flow utters (as `bot say $x` or interpolated into a string literal written by the flow author: `\"P0: {$v0} / P1: {$v1}\"`); bot/user intents and generated flow bodies are not message text",
     "a `$variable` bot intent is resolved to the value of the context variable by design; what the reply is when that value is not a string (or when the intent is empty after the documented clean-up of `bot intent \"message\"` / `bot intent, more`) is unspecified - on the unchanged tree the generation action fails and the turn is answered with the fixed internal-error reply, which is a well-formed message; asserted is only that generate returns a well-formed message and does not raise, in that turn and in every later one",
+    "built literal answers (py-lit:*): the source text is assembled at generation time from leaf / tuples / slot / wrappers and travels in the case; every one is accepted by ast.literal_eval; what the flow variable holds afterwards (the value, or nothing when the literal contains an element no variable can hold and the action fails) and what the bot then says is unspecified - asserted is only the statement's general part: generate returns a well-formed message and does not raise, in that turn and in every later turn (the Colang 2.x caller hands the returned state back, so a value that was accepted must also survive the state round trip); a literal that carries the call's marker in a str leaf is additionally subject to the existing no-evaluation tests (S3CR3T / 49), never to the literal-text test",
     "planted context variables (case[\"ctx\"]) are JSON values handed over in the caller's `context` message exactly like secret_var; pure passthrough mode runs without them (see below)",
     "control strings (ctl) carry no marker and no literal-text obligation: what `(remove last message)` or `...` does to the reply is the tree's documented special-casing; asserted is only that the turn completes with a well-formed message (an empty assistant message when the retracting string is the first utterance)",
     "inputs that reach genuine defects found by this check but not listed in known_findings.json are withheld from generation until the id is listed (PENDING_RAW / PENDING_INTERP: C17-F7i expression errors in multi-step generated flows, C17-F7j self-starting generated Colang 2.x flows, C17-F7k `{{`/`}}` payloads in v2interp); VF_C17_PENDING=1 generates them regardless",
@@ -540,6 +555,49 @@ NO_USABLE_INTENT = ["int-only-message", "int-only-quote", "int-comma", "int-comm
 # variables of non-string JSON types that a case may plant through the context message (case["ctx"]; next to secret_var)
 PLANTED = {"num_var": 4242, "zero_var": 0, "float_var": 2.5, "flag_var": True, "list_var": ["x", "y"], "empty_list_var": [], "dict_var": {"a": 1}, "null_var": None}
 
+# LITERAL ANSWERS for the value-generation calls (`$x = ..."instruction"` in Colang 2.x, `$x = ...` in Colang 1.0: the answer goes
+# through literal_eval): a Python literal BUILT from four dimensions drawn as data - a LEAF (a value no flow variable can hold:
+# bytes / complex / Ellipsis; or a holdable one: str carrying the call's marker, int, float, None, bool, inf, the empty tuple),
+# 0-2 TUPLES around the leaf (`(1, <leaf>)`, `((<leaf>,), 'k')` - still hashable), the SLOT the (wrapped) leaf takes in its
+# container (list item, tuple item, set item, dict value, dict KEY, second dict key) and 0-3 outer WRAPPERS (list, list tail,
+# tuple, dict value under a str / an int key).  So an offending element sits in every syntactic position of a container literal,
+# in particular in key positions (`{b'k': 1}`, `{(1, 2j): 1}`, `[{'w': {...: 1}}]`), at every depth up to 6.
+LIT_LEAVES = {
+    "bytes": "b'x'", "bytes-empty": "b''", "complex": "2j", "complex-sum": "1+2j", "ellipsis": "...",
+    "str": f"'{M} s'", "int": "7", "float": "2.5", "none": "None", "bool": "True", "inf": "1e400", "empty-tuple": "()",
+}
+LIT_FAMILY = {"bytes": "unholdable-bytes", "bytes-empty": "unholdable-bytes", "complex": "unholdable-complex", "complex-sum": "unholdable-complex", "ellipsis": "unholdable-ellipsis"}
+LIT_TUPLES = ("%s", "(1, %s)", "((%s,), 'k')")
+LIT_SLOTS = {
+    "list-item": "[1, %s]",
+    "tuple-item": "(%s, 2)",
+    "set-item": "{%s, 1}",
+    "dict-value": "{'a': %s}",
+    "dict-key": "{%s: 1}",
+    "dict-key-second": "{'a': 0, %s: 1}",
+}
+LIT_WRAPS = {"list": "[%s]", "list-tail": "[0, %s]", "tuple": "(%s,)", "dict-value": "{'w': %s}", "dict-value-int-key": "{1: %s}"}
+CORE_LIT_LEAVES = ["bytes", "complex", "ellipsis", "str", "int", "none"]
+CORE_LIT_WRAPS = [["dict-value", "list"], ["list-tail", "tuple", "dict-value-int-key"]]
+VALUE_TASKS = ("v1_value", "v2_value")
+
+
+def lit_spec(leaf, tuples, slot, wraps=()):
+    """placement spec of a literal answer: the source text is built here (generation time) and travels in the case."""
+    text = LIT_SLOTS[slot] % (LIT_TUPLES[tuples] % LIT_LEAVES[leaf])
+    for w in wraps:
+        text = LIT_WRAPS[w] % text
+    c = f"py-lit:{LIT_FAMILY.get(leaf, 'holdable')}@{slot}{'-in-tuple' if tuples else ''}"
+    return {"c": c, "text": text, "lit": {"leaf": leaf, "tuples": int(tuples), "slot": slot, "wraps": list(wraps)}}
+
+
+def st_lit_spec():
+    leaf = st.sampled_from(sorted(LIT_FAMILY) * 2 + sorted(LIT_LEAVES))  # two thirds: a leaf no variable can hold
+    slot = st.sampled_from(sorted(LIT_SLOTS) + ["dict-key", "dict-key-second"])
+    wraps = st.lists(st.sampled_from(sorted(LIT_WRAPS)), min_size=0, max_size=3)
+    return st.tuples(leaf, st.sampled_from([0, 0, 1, 1, 2]), slot, wraps).map(lambda a: lit_spec(*a))
+
+
 CORE_RAW = [
     "empty", "whitespace", "lone-quote", "prefix-bot", "prefix-user", "co1-define-flow-header", "co1-define-flow", "co1-while-true",
     "co1-bot-while-true", "co1-execute", "co1-ellipsis", "co1-bot-var-intent", "co1-comment-only", "co1-bot-inline-message",
@@ -667,9 +725,10 @@ def st_spec(intents=False):
     ).map(list)
     mut = st.lists(op, min_size=1, max_size=3).map(lambda ops: {"c": "mutation", "ops": ops})
     sticky = st.sampled_from(pool).map(lambda c: dict(raw_spec(c), sticky=True))
+    lit = st_lit_spec()  # built literal answers (meant for the value-generation calls; harmless raw text anywhere else)
     if intents:  # Colang 1.0 modes: hostile bot intents in the format of the task
-        return st.one_of(raw, raw, msg, mut, mut, sticky, ctl, st_int_spec())
-    return st.one_of(raw, raw, msg, mut, mut, sticky, ctl)
+        return st.one_of(raw, raw, msg, mut, mut, sticky, ctl, st_int_spec(), lit)
+    return st.one_of(raw, raw, msg, mut, mut, sticky, ctl, lit)
 
 
 def mutate(text, ops):
@@ -997,7 +1056,7 @@ USER_TEXT = {"predef": "hello there", "llm": "how is the weather", "pl": "tell m
 
 @st.composite
 def _case(draw):
-    mode = draw(st.sampled_from(V1_MODES * 3 + ["multi"] * 4 + ["single"] * 2 + V2_MODES + ["v2interp"]))
+    mode = draw(st.sampled_from(V1_MODES * 3 + ["multi"] * 4 + ["single"] * 2 + V2_MODES + ["v2interp", "v2value"]))
     self_rails = MODES[mode][0] == 1 and mode in ("three", "general", "multi") and draw(st.sampled_from([False, False, False, True]))
     extra = {}
     if mode == "v2interp":
@@ -1030,6 +1089,10 @@ def _case(draw):
         t, k = draw(st.integers(0, n - 1)), draw(st.integers(0, cfg["vals"] - 1))
         j = (k + draw(st.sampled_from([0] + list(range(1, cfg["vals"])) * 3))) % cfg["vals"]  # mostly another value, sometimes its own
         places[(t, k)] = peer_spec(k, j, draw(st.sampled_from(["brace-dollar", "brace-dollar", "brace-dollar", "dollar", "brace"])))
+    if mode in ("v2value", "v2interp") and draw(st.sampled_from([True, True, False])):
+        # literal dimension: the value-generation call (of one or two turns) answers with a built container literal
+        for _ in range(draw(st.sampled_from([1, 1, 2]))):
+            places.setdefault((draw(st.integers(0, n - 1)), draw(st.integers(0, cfg.get("vals", 1) - 1))), draw(st_lit_spec()))
     if mode == "v2llmc" and "co2-flow-body-self-start" not in WITHHELD_RAW and draw(st.sampled_from([True, False, False, False])):
         for tt, k, spec in recursion_places(mode, draw(st.integers(0, n - 1)), other=draw(st.booleans())):
             places[(tt, k)] = spec
@@ -1063,6 +1126,12 @@ def _case(draw):
             turns[t]["route"] = draw(st.sampled_from(["llm", "lp", "ll"]))
             turns[t]["user"] = f"{mk_user(t)} {USER_TEXT[turns[t]['route']]}"
         places.setdefault((t, first_msg), draw(st.sampled_from(sorted(CTL)).map(ctl_spec)))
+    if cfg["v"] == 1 and cfg["dialog"] and not places and draw(st.sampled_from([True] + [False] * 7)):
+        # the literal dimension at the value-generation call of the Colang 1.0 flow `$val = ...` / `bot $val` (call 1 of a turn of route `value`)
+        t = draw(st.integers(0, n - 1))
+        turns[t]["route"] = "value"
+        turns[t]["user"] = f"{mk_user(t)} {USER_TEXT['value']}"
+        places[(t, 1)] = draw(st_lit_spec())
     for _ in range(draw(st.sampled_from([0, 1] if places else [1, 1, 2, 2, 3, 4]))):
         t = draw(st.integers(0, n - 1))
         k = draw(st.sampled_from([0, 0, 0, 1, 1, 2, 3]))
@@ -1088,6 +1157,28 @@ def enumerate_cases(tier):
     pays = CORE_PAYLOADS if tier == "quick" else sorted(PAYLOADS)
     ctls = CORE_CTL if tier == "quick" else sorted(CTL)
     ints = CORE_INTENTS if tier == "quick" else sorted(INTENTS)
+    # literal answers at the value-generation calls: leaf x tuples around it x slot in the container (x outer wrappers for the
+    # leaves no variable can hold); Colang 2.x value generation uttered as a variable and through an interpolated string (first
+    # and second value), thorough tier also the Colang 1.0 `$val = ...` flow
+    quick = tier == "quick"
+    lits = [lit_spec(leaf, tup, slot) for leaf in (CORE_LIT_LEAVES if quick else sorted(LIT_LEAVES)) for slot in LIT_SLOTS for tup in ((0, 1) if quick else (0, 1, 2))]
+    deep = [lit_spec(leaf, tup, slot, wraps) for leaf in (CORE_LIT_LEAVES[:3] if quick else sorted(LIT_FAMILY)) for slot in LIT_SLOTS
+            for i, wraps in enumerate(CORE_LIT_WRAPS) for tup in ((i,) if quick else (0, 1, 2))]
+    bad = [sp for sp in lits if sp["c"].startswith("py-lit:unholdable")]
+    if quick:  # the interpolated string: the leaves no variable can hold, split over the first and the second value
+        targets = [("v2value", "llm", 0, lits + deep), ("v2interp", "llm", 0, [sp for i, sp in enumerate(bad) if (i + i // 2) % 2 == 0]),
+                   ("v2interp", "llm", 1, [sp for i, sp in enumerate(bad) if (i + i // 2) % 2] + deep[::2])]
+    else:
+        targets = [("v2value", "llm", 0, lits + deep), ("v2interp", "llm", 0, lits + deep), ("v2interp", "llm", 1, lits + deep)]
+    if not quick:
+        targets += [(m, "value", 1, lits + deep) for m in ("three", "single", "multi", "passdlg")]
+    for mode, route, k, specs in targets:
+        for spec in specs:
+            turns = [
+                {"user": f"{mk_user(0)} {USER_TEXT[route]}", "route": route, "body": "first answer", "in": [], "out": []},
+                {"user": f"{mk_user(1)} {USER_TEXT['llm']}", "route": "llm", "body": "closing answer", "in": [], "out": []},
+            ]
+            yield {"config": make_cfg(mode), "turns": turns, "place": [[0, k, spec]], "api": "sync"}
     for mode in MODES:
         cfg = make_cfg(mode)
         v2 = cfg["v"] == 2
@@ -1321,6 +1412,13 @@ def _check(case, obs):
         keys.add(key)
         labels.append(f"reached:{cfg['mode']}:{r['task']}")
         labels.append(f"class:{r['kind']}")
+        if str(r["c"]).startswith("py-lit:"):
+            # built literal answer: family of the leaf @ its slot, at a value-generation call or elsewhere; nesting depth
+            spec_ = sess.place.get((r["turn"], r["k"])) or {}
+            labels.append(f"literal:{r['c'][7:]}:{r['task'] if r['task'] in VALUE_TASKS else 'other-task'}")
+            if r["task"] in VALUE_TASKS and spec_.get("lit"):
+                labels.append(f"literal-depth={1 + spec_['lit']['tuples'] + len(spec_['lit']['wraps'])}")
+                counters[f"lit|{cfg['mode']}|{r['task']}|{spec_['lit']['leaf']}|{spec_['lit']['slot']}"] = 1
         if r["kind"] == "int":
             labels.append(f"bot-intent:{r['c']}:{r['task'] if r['task'] in ('generate_next_steps', 'single_call') else 'other-task'}")
         if r["kind"] == "ctl":
